@@ -472,6 +472,8 @@ func reloadPass(e *venum.E, a *vh.Args, sel *phantoms.PhantomIPSelector) bool {
 					var stB, stF string
 					if p, msg, site := venum.Guard(func() {
 						rm := vfix.Manager(conf1, sel, &vfix.Tester{}, vfix.Transports{Min: true}, nil)
+						var sink []lib.VerifDetectorMsg
+						rm.VerifCaptureDetector(&sink) // (no redis here: an unanswered publish would be retried with real-time back-off)
 						ingest(rm, 3, false)
 						rm.OnReload(conf2)
 						dialed = dialed[:0]
@@ -483,6 +485,8 @@ func reloadPass(e *venum.E, a *vh.Args, sel *phantoms.PhantomIPSelector) bool {
 					dialedB := append([]string{}, dialed...)
 					if p, msg, site := venum.Guard(func() {
 						rmF := vfix.Manager(confF, sel, &vfix.Tester{}, vfix.Transports{Min: true}, nil)
+						var sink []lib.VerifDetectorMsg
+						rmF.VerifCaptureDetector(&sink)
 						admF, stF = ingest(rmF, 4, false)
 					}); p {
 						e.Violation("panic:"+site, msg+" "+id, map[string]any{"case": id})
